@@ -143,9 +143,14 @@ def conf_sx(t):
     return [t[0], t[1], t[2]]
 
 
+# native driver when lean/lakefile.toml declares it (the interpreted driver costs seconds per call: shrinking a flood
+# of failing histories took more than half an hour against a seeded change)
+C06_EXE = 'c06driver' if '"c06driver"' in (LEAN / 'lakefile.toml').read_text() else None
+
+
 def run_model(histories, confs, builtin) -> list:
     out = []
-    for line in lean_driver([model_line(h, confs, builtin) for h in histories], 'C06'):
+    for line in lean_driver([model_line(h, confs, builtin) for h in histories], 'C06', exe=C06_EXE):
         v = parse_sexp(line)
         assert v[0] == 'ok', line
         out.append(v[1])
@@ -288,8 +293,8 @@ def explore(ck: Check, n: int, maxlen: int, seed: int, exhaustive_len: int = 0) 
                 replay={'history': hs, 'history_readable': describe(hs, confs), 'first_difference':
                         {'after_op': ds[0], 'observable': ds[1], 'query': ds[2], 'real': ds[3], 'spec': ds[4]},
                         'unshrunk_history': h}))
-            if len({f.key for f in ex.failures}) >= 8:
-                break
+            if len({f.key for f in ex.failures}) >= 8 or len(ex.failures) >= 16:
+                break          # a flood (a change breaking every history): the first witnesses are enough
     ex.distinct_nontrivial = len(nontrivial)
     ex.extra['outcome_distribution'] = kinds
     ex.extra['distinct_histories'] = len(seen)
